@@ -62,6 +62,20 @@ let () = iter_lines (fun l ->
        | Ok (ByTrials (k, n)) -> Printf.printf "T %d %d\n" (int_of_z k) (int_of_z n)
        | Ok (ByGammaFit (t, e, m)) -> Printf.printf "G %d %d %d\n" (int_of_z t) (int_of_z e) (int_of_z m)
        | Err e -> print_endline ("Err " ^ err_name e))
+  | [["mixedfull"; op; thr; sw; eta; nmax; s_eta; s_thr]; ts] ->
+      (* the fitted survival function is an oracle: its two values used by the implementation are handed in *)
+      let eta_o = if eta = "-" then None else Some (zi eta) in
+      let eta_z = (match eta_o with None -> int_of_string sw | Some e -> int_of_z e) in
+      let sf _ _ x = if int_of_z x = eta_z then fl s_eta else fl s_thr in
+      let tsz = List.map zi ts in
+      (match pval_mixed_full numf sf (op_of op) tsz (zi thr) (zi sw) eta_o (zi nmax) with
+       | Ok (p, s) ->
+           let cnt = (if int_of_string thr < int_of_string sw then "T"
+                      else match gammafit_counts tsz (zi thr) (z_of_int eta_z) (zi nmax) with
+                           | Ok ((k, n), _) -> Printf.sprintf "G %d %d" (int_of_z k) (int_of_z n)
+                           | Err _ -> "G ? ?") in
+           print_endline ("Ok " ^ hx p ^ " " ^ hx s ^ " " ^ cnt)
+       | Err e -> print_endline ("Err " ^ err_name e))
   | (["poly"; deg; p] :: tabs) ->
       let tab = List.map (fun t -> match t with
         | d :: "E" :: [nm] -> (int_of_string d, Err (err_of nm))
